@@ -371,7 +371,7 @@ def fresh(ctx: Ctx, rule="R-C08-FRESH") -> None:
                       f"{cls.name}.{meth} is memoised ({bad}): two executions with an identical payload share one set of argument objects, so whatever the first "
                       "execution did to its (mutable) arguments is what the second one receives instead of its payload entries", node=f.node, instance=f"{cls.name}.{meth}: fresh per call")
             if meth == "convert_inputs":
-                stores = [unparse(t) for a in ast.walk(f.node) if isinstance(a, (ast.Assign, ast.AugAssign, ast.AnnAssign))
+                stores = [unparse(t) for a in ast.walk(f.node) if isinstance(a, (ast.Assign, ast.AugAssign, ast.AnnAssign)) and getattr(a, "value", None) is not None
                           for t in (a.targets if isinstance(a, ast.Assign) else [a.target]) if (dotted(t) or unparse(t)).startswith("self.")]
                 glob = [x for x in ast.walk(f.node) if isinstance(x, (ast.Global, ast.Nonlocal))]
                 ctx.check(not stores and not glob, rule, f, f"{cls.name}.convert_inputs keeps no state between calls", "no store to the converter or to globals",
